@@ -106,3 +106,6 @@ func ApplyRecvOutcome(res *runner.Result, c runner.Case, sc recvx.Scenario, out 
 		res.Sample = map[string]any{"case": c.ID, "instances": len(sc.Insts), "limits": []int{sc.DLimit, sc.ZLimit}, "consumer": sc.Consumer, "deliveries": len(out.Deliveries), "list_cycles": out.ListCycles, "cycles_to_all": out.CyclesToAll}
 	}
 }
+
+// HostileBlob exposes the hostile generators to other checks.
+func HostileBlob(gen string, seed uint64, index int) []byte { return hostileBlob(gen, seed, index) }
